@@ -27,6 +27,8 @@ def run(rep):
                             HWCodes=dtchecks.models.code(dtchecks.models.sq(2, 12)))
     dtchecks.integer_pr(rep, fnd, "C04", rep.tier)
     dtchecks.numeric_pr(rep, fnd, "C04", rep.tier)
+    from .. import scalechecks
+    scalechecks.dtcwt(rep, "C04", rep.tier, "roundtrip")          # large inputs (size thresholds)
     rep.assumptions += ["PR of the shipped tables' VALUES is C18's business (residual <= 2^-24 there); here the bookkeeping is exact"]
 
 
